@@ -14,6 +14,10 @@ import (
 )
 
 func TestMain(m *testing.M) {
+	if raceEnabled {
+		// see race_on.go: no harness locking in race builds
+		runtime.GOMAXPROCS(1)
+	}
 	MuteEngine()
 	InstallHooks()
 	if err := ValidateCorpus(); err != nil {
